@@ -27,6 +27,7 @@ THEOREMS = ["Mpir.AllocSafe." + t for t in (
     "mpz_tdiv_q_alloc_safe", "mpz_tdiv_q_request_necessary", "mpz_tdiv_r_alloc_safe", "tdiv_q_refines", "tdiv_r_refines",
     "Spec.tdiv_q_spec", "Spec.tdiv_r_spec", "copyIfSame_spec",
     "mpf_urandomb_dest_safe", "mpf_urandomb_seeded_unsafe", "mpf_urandomb_fin_spec",
+    "mpz_tdiv_qr_alloc_safe", "tdiv_qr_refines", "Grown.owf",
     "mpz_sqrt_alloc_safe", "mpz_sqrt_free_me_dead", "sqrt_refines", "Spec.sqrt_spec", "sqrtTail_refines")]
 TRUSTED = ["hand-written size-aware models lean/Mpir/Model/AllocSafeMpz4.lean (mpz/aorsmul_i.c, aorsmul.c on the memory model of AllocSafe.lean; "
            "TMP_ALLOC_LIMBS (tsize) = a block of its own that no variable points to; mpn_mul = the schoolbook product written to "
@@ -41,7 +42,7 @@ RULE = ("allocsafe4: addmul_ui/submul_ui/addmul/submul with every sign combinati
         "aorsmul_i.c:169, products with a zero top limb, one-limb multiplier in either position, all five alias modes, destination allocation "
         "exact / need-1 / need / generous")
 
-PINS = [("mpz/aorsmul_i.c", None), ("mpz/aorsmul.c", None), ("mpz/mul.c", None), ("mpz/tdiv_q.c", None), ("mpz/tdiv_r.c", None), ("mpf/urandomb.c", None), ("mpz/sqrt.c", None)]
+PINS = [("mpz/aorsmul_i.c", None), ("mpz/aorsmul.c", None), ("mpz/mul.c", None), ("mpz/tdiv_q.c", None), ("mpz/tdiv_r.c", None), ("mpf/urandomb.c", None), ("mpz/sqrt.c", None), ("mpz/tdiv_qr.c", None)]
 
 def nl(x): return (abs(x).bit_length() + 63) // 64
 
@@ -199,6 +200,14 @@ def gen_sqrt(rng):
     w = sgnd(rng, special(rng, rng.randrange(1, 4)))
     return "as4_sqrt %x %s %s" % (rng.randrange(2), obj(rng, w, need), obj(rng, u, need))
 
+def gen_divqr(rng):
+    """mpz_tdiv_qr: the cases of gen_div with two outputs and the ten alias modes"""
+    line = gen_div(rng, "as4_tdiv_q").split()
+    m = rng.choice([0, 0, 0, 1, 2, 3, 4, 5, 6, 7, 8, 9])
+    w2 = sgnd(rng, special(rng, rng.randrange(1, 4)))
+    n = int(line[5], 16); d = int(line[7], 16)
+    return "as4_tdiv_qr %x %s %s %s %s %s %s" % (m, line[2], line[3], obj(rng, w2, max(nl(d), 1)), line[4], line[5], "%s %s" % (line[6], line[7]))
+
 def gen_ops(rng, tier, ctx=None):
     n = 1000 if tier == "quick" else 12000
     for _ in range(n):
@@ -211,6 +220,7 @@ def gen_ops(rng, tier, ctx=None):
         yield gen_div(rng, "as4_tdiv_r")
         if _ % 4 == 0: yield gen_furandomb(rng)
         if _ % 2 == 0: yield gen_sqrt(rng)
+        yield gen_divqr(rng)
 
 def nontrivial(line):
     return line if line.startswith("as4_") else None
